@@ -171,9 +171,12 @@ def program(outer, nest_at, inner, rot, reg_hole=0):
     return form(outer, bodies, ctr)
 
 
+QUICK_INNER = ["ifelse", "ifelifelse", "sw_default", "sw_overlap"]
+
+
 def program_descs(tier):
     """the enumerated program space: (outer, nest_at, inner, rot)"""
-    inner_forms = FORMS[1:] if tier == "thorough" else ["ifelse", "ifelifelse", "sw_default", "sw_overlap"]
+    inner_forms = FORMS[1:] if tier == "thorough" else QUICK_INNER
     rots = range(len(CONDS)) if tier == "thorough" else (0,)
     out = []
     for rot in rots:
